@@ -59,7 +59,7 @@ def hist_case(seqs, calls, kind):
     return Case(lines, {"kind": kind, "nobj": len(seqs)}, nontrivial=True)
 
 
-FIXED = ["EEEEEKKKKKGGGG", "KEGSTYPKRDDEAG", "EEEEDDEEDD", "KEKEK", "KGGEEEGGK", "KEEEGGK", "GGGGGGG", "MKKKKKKKKKKSTY", "AGSTVKEAGSTVDR"]
+FIXED = ["EEEEEKKKKKGGGG", "KEGSTYPKRDDEAG", "EEEEDDEEDD", "KEKEK", "KGGEEEGGK", "KEEEGGK", "KKEEEEK", "KKEEEEEEEEKK", "GGGGGGG", "MKKKKKKKKKKSTY", "AGSTVKEAGSTVDR"]
 
 
 def cases(rng, tier):
@@ -69,7 +69,7 @@ def cases(rng, tier):
     # objects handed back by moves / shuffles, and copy / deepcopy / pickle duplicates of objects with built-up state
     for l in core.childq_cases(rng, 60 if tier == "quick" else 400, ['dmaxperm', 'kappa', 'dmax', 'html', 'phosseq']):
         yield Case([l], {"kind": "object-from-move-or-copy"})
-    nfix = 6 if tier == "quick" else 9
+    nfix = 8 if tier == "quick" else 11
     for s in FIXED[:nfix]:
         sh = [q for q in shapes(rng, len(s)) if not q.startswith(("linComp", "cplx", "reduce", "ppii", "ww", "mw", "aafrac", "disorder", "countN", "fminus", "sty", "len"))][:37]
         for q1 in sh:
